@@ -10,7 +10,7 @@ CONSTANTS
   Msgs <- ScopeMsgs
   MaxCuts = 0
   Bytewise = TRUE
-  ReadSizes = {1, 2, 1000000}
+  ReadSizes = {1, 1000000}
   Cap = 65535
   Stales = {0, 13}
 INVARIANTS FragmentationIndependent BodyExactThenEOF BodyPrefix MalformedTerminates InBounds
